@@ -316,15 +316,31 @@ func checkC03(c *core.Ctx) {
 				return xs < ys
 			})
 			r.Shuffle(len(list), func(a, b int) { list[a], list[b] = list[b], list[a] })
+			// every other case is a long piece (more than 4300 chords, hundreds of slash chords) whose key is stated
+			// once, on the first chord, while --key names another key: the modulation has to last to the end
+			long := (i/len(keys))%2 == 1
+			argKey := k.String()
+			if long {
+				one := append([]acceptedChord(nil), list...)
+				for len(list) < 4300 {
+					r.Shuffle(len(one), func(a, b int) { one[a], one[b] = one[b], one[a] })
+					list = append(list, one...)
+				}
+				argKey = keys[(i+11)%len(keys)].String()
+			}
 			var b strings.Builder
-			for _, ch := range list {
+			for j, ch := range list {
 				b.WriteString(ch.root.String())
 				if ch.bass != nil {
 					b.WriteString("/" + ch.bass.String())
 				}
-				b.WriteString("[1] ")
+				b.WriteString("[1]")
+				if long && j == 0 {
+					b.WriteString("{key=" + k.String() + "}")
+				}
+				b.WriteString(" ")
 			}
-			res := run(c, []byte(b.String()), "text", "conv", "syllable", "--key", k.String())
+			res := run(c, []byte(b.String()), "text", "conv", "syllable", "--key", argKey)
 			c.Eval(1)
 			if infra(c, res) {
 				return
